@@ -106,3 +106,27 @@ pub fn shim_allocate_jit_memory(src: &crate::injector_core::common::FuncPtrInter
         p as *mut u8
     }
 }
+
+/// Contract stub for `str::trim` on the ASCII strings the gate harnesses construct: remove leading
+/// and trailing ASCII white space (std's version decodes UTF-8 and consults the Unicode White_Space
+/// table from both ends, which dominated the formula of the textual-gate harnesses).
+pub fn shim_trim(s: &str) -> &str {
+    let b = s.as_bytes();
+    let mut lo = 0usize;
+    let mut hi = b.len();
+    let mut k = 0;
+    while k < 24 {
+        if lo < hi && (b[lo] == b' ' || (b[lo] >= 9 && b[lo] <= 13)) {
+            lo += 1;
+        }
+        k += 1;
+    }
+    let mut k = 0;
+    while k < 24 {
+        if hi > lo && (b[hi - 1] == b' ' || (b[hi - 1] >= 9 && b[hi - 1] <= 13)) {
+            hi -= 1;
+        }
+        k += 1;
+    }
+    unsafe { core::str::from_utf8_unchecked(&b[lo..hi]) }
+}
